@@ -101,6 +101,18 @@ BSTR = z3.Function("bytes_as_latin1", CoderId, S)             # the id bytes, re
 BSIZE = z3.Function("bytesio_size", BytesIO, I)
 AES_PREFIX = "\x06\xf1\x07"                                   # 7z method id 06 F1 07 xx = AES-256 + SHA-256
 
+ZipNames = ext_sort("ZipNames")
+NAMES = z3.Function("zip_namelist", ZipFile, ZipNames)          # ZipFile.namelist() (and any set / list built from it)
+INNAMES = z3.Function("zip_name_listed", ZipNames, S, B)
+
+
+def names_has(names_t, name_t):
+    """ASSUMED zipfile view: a name is listed by namelist() exactly when the archive has a member of that name."""
+    if z3.is_app(names_t) and names_t.decl().eq(NAMES):
+        return HASM(names_t.arg(0), name_t)
+    return INNAMES(names_t, name_t)
+
+
 MANIFEST = "META-INF/manifest.xml"
 OLE_ENC_STREAMS = ("EncryptionInfo", "EncryptedPackage", "DataSpaces")      # property statement (quantifier text)
 PPT_ENC_STREAMS = ("EncryptedSummary", "EncryptedSummaryInformation")       # [MS-PPT] encrypted document streams
@@ -380,6 +392,19 @@ class VModDict(VUnk):
         self.mod = mod
 
 
+class VClassOf(VUnk):
+    """type(x) of an instance: some class object; only its __name__ / __qualname__ (some str) is ever asked."""
+    def __init__(self):
+        super().__init__("type(x)")
+
+
+class VSuperOf(VUnk):
+    """`super()` inside a method of class `cls` (zero-argument form)."""
+    def __init__(self, cls):
+        super().__init__("super()")
+        self.cls = cls
+
+
 class VPieces(VUnk):
     """Result of s.split(sep) / s.rsplit(sep, 1): a list of unknown length >= 1 of which only the LAST piece is known."""
     __slots__ = ("last",)
@@ -441,6 +466,8 @@ def install_container_models(reg):
     reg.method_models[("OleFile", "openstream")] = m_ole_openstream
     reg.method_models[("OleStream", "read")] = m_olestream_read
     reg.ext_models["zipfile.is_zipfile"] = m_is_zipfile
+    for nm in ("defusedxml.ElementTree.fromstring", "xml.etree.ElementTree.fromstring"):      # (dotted form: a helper inlined from another module)
+        reg.ext_models[nm] = m_et_fromstring
     reg.method_models[("ZipFile", "read")] = m_zip_read
     reg.method_models[("Blob", "decode")] = m_blob_decode
     for nm in ("find", "rfind", "index", "count"):
@@ -566,8 +593,16 @@ class C08Executor(readfile.ReadFileExecutor):
         return super().exec_block(stmts, st)
 
     def _call(self, st, f, args, kwargs, node):
+        if os.environ.get("C08_DBG_CALL"):
+            print("CALL", type(f).__name__, getattr(f, "how", None), repr(getattr(f, "a", None))[:60], getattr(f, "b", None), file=sys.stderr)
         if isinstance(f, VFunc) and f.how == "classattr" and f.a == "int" and f.b == "from_bytes":
             return self.int_from_bytes(st, args, kwargs, node)
+        if isinstance(f, VFunc) and f.how == "builtin" and f.a == "super" and not args and not kwargs and self.cur_fn_stack:
+            q = next((q_ for q_, n_ in self.module.functions.items() if n_ is self.cur_fn_stack[-1]), "")
+            if "." in q:
+                return [(st, VSuperOf(q.rsplit(".", 1)[0]))]
+        if isinstance(f, VType) and f.name == "type" and len(args) == 1 and not kwargs:
+            return [(st, VClassOf())]        # type(x): pure and total -- the (dynamic, possibly sub-)class of x; x is left as it is
         if isinstance(f, VFunc) and f.how == "classattr" and str(f.a).endswith("ElementTree") and f.b == "fromstring":
             return m_et_fromstring(self, st, args, kwargs, node)
         return super().call(st, f, args, kwargs, node)
@@ -853,6 +888,10 @@ class C08Executor(readfile.ReadFileExecutor):
                 return [(st, VStr(base.b if attr == "__qualname__" else base.b.split(".")[-1]))]
             if base.how == "closure" and hasattr(base.a, "name"):
                 return [(st, VStr(base.a.name))]
+        if isinstance(base, VSuperOf) and attr == "__init__" and self._builtin_exception_init(base.cls):
+            return [(st, VFunc("bound", base, attr))]
+        if isinstance(base, VClassOf) and attr in ("__name__", "__qualname__"):
+            return [(st, VStr(z3.String(fresh_name("class_name"))))]
         if isinstance(base, VMod) and attr == "__dict__":
             return [(st, VModDict(base.name))]
         if isinstance(base, VModDict) and attr == "update":
@@ -861,7 +900,8 @@ class C08Executor(readfile.ReadFileExecutor):
             return [(st, st.ghost[("bind", base.name, attr)])]       # a name this activation has (re)bound in that module
         if attr in self._LIST_GROW and self._grown_list(st, base):
             return [(st, VFunc("bound", base, attr))]        # a list of unknown content: append & co. are total
-        if attr == "close" and isinstance(base, VUnk):
+        if attr == "close" and (isinstance(base, VUnk) or isinstance(base, VExt) and self.reg.method_models.get((base.sort, "close")) is None
+                                and self.reg.attr_models.get((base.sort, "close")) is None):
             return [(st, VFunc("bound", base, attr))]        # see call_method: close() assumed total
         return super().get_attr(st, base, attr, node)
 
@@ -872,7 +912,26 @@ class C08Executor(readfile.ReadFileExecutor):
                 return self.reg.get(f"{self.module.rel}::{o.cls}.{name}")
         return None
 
+    def _builtin_exception_init(self, cls):
+        """The next __init__ after `cls` in the MRO is BaseException.__init__ (accepts any positional arguments, total): every
+        base up to a builtin exception class is a single-inheritance class of this module without an __init__ of its own."""
+        seen = 0
+        while seen < 10:
+            seen += 1
+            node = self.module.classes.get(cls)
+            if node is None or len(node.bases) != 1 or node.keywords:
+                return False
+            base = ast.unparse(node.bases[0])
+            if base in ("Exception", "BaseException", "RuntimeError", "ValueError"):
+                return True
+            if base not in self.module.classes or f"{base}.__init__" in self.module.functions or f"{base}.__new__" in self.module.functions:
+                return False
+            cls = base
+        return False
+
     def call_method(self, st, obj, name, args, kwargs, node):
+        if isinstance(obj, VSuperOf) and name == "__init__" and not kwargs and self._builtin_exception_init(obj.cls):
+            return [(st, NONE)]           # BaseException.__init__(*args): stores args, total
         cm = self._contracted_method(st, obj, name)
         if cm is not None and not cm.inline:
             return self.apply_contract(st, cm, [obj] + list(args), kwargs, node)
@@ -910,7 +969,16 @@ class C08Executor(readfile.ReadFileExecutor):
                         return [(st, VBool(t if op == "Eq" else z3.Not(t)))]
         return super().compare(st, op, a, b, node)
 
+    def b_collection(self, st, name, args, node):
+        if name in ("set", "frozenset", "list", "tuple") and len(args) == 1 and isinstance(args[0], VExt) and args[0].sort == "ZipNames":
+            return [(st, args[0])]           # a collection of the same member names: membership is all this pack asks of it
+        return super().b_collection(st, name, args, node)
+
     def contains(self, st, container, item, node):
+        if isinstance(container, VExt) and container.sort == "ZipNames":                                   # name in zf.namelist()
+            if isinstance(item, VStr):
+                return [(st, VBool(names_has(container.t, item.t)))]
+            return [(st, VBool(z3.Bool(fresh_name("in_namelist"))))]
         if isinstance(container, VExt) and container.sort == "PdfObj" and isinstance(item, VStr):       # "/CF" in encrypt
             return [(st, VBool(PHAS(container.t, item.t)))]
         if isinstance(container, VExt) and container.sort == "Blob":            # needle in <raw bytes of a ZIP member>
@@ -1388,13 +1456,21 @@ def doc_contracts(reg):
 
     def new_docreader(ex, st, args, kwargs, node):
         f = _fl(args[0]) if args else None
+        if f is not None:
+            st.ghost["doc_bytes"] = Term(f.t)
         return [(st, VExt("DocReader", DR_OF(f.t)) if f is not None else VExt("DocReader"))]
 
     def with_docreader(ex, st, cm, phase):
         if phase == "enter":
             ex.exc_any(st.fork(), "_DocReader.__enter__ (olefile.OleFileIO)")
             st.ghost["doc_opened"] = True
+            # by the VERIFIED contracts of _DocReader.__init__ / __enter__ (handle_contracts): the reader keeps the very bytes it
+            # was given and `doc.ole` is the olefile directory view of those bytes; `as doc` is the reader itself
+            f = st.ghost.get("doc_bytes")
+            if f is not None:
+                st.assume(DR_OLE(cm.t) == OLE_OF(f.t))
             return [(st, cm)]
+        # "exit": verified `_DocReader.__exit__/ensures#returns-a-false-value...` -- the outcome of the body is left as it is
 
     def m_doc_read(ex, st, obj, args, kwargs, node):
         """doc.read() on a fresh reader: by the verified contract of _DocReader.read -- an encrypted Word document raises the
@@ -1444,6 +1520,208 @@ def doc_contracts(reg):
     cd.on_yield = doc_on_yield
     EXECUTOR_KW[t] = {"abstract": True, "inline_calls": False, "inline_local": True}
     out.append(cd)
+    return out
+
+
+# ---- round 7: the library's own handle classes (construction / __enter__ / __exit__) -------------
+# The call-site models of `with _DocReader(f) as doc` and `with SevenZipFile(f, "r") as szf` used to ASSUME that the handle
+# (a) keeps the bytes it was given, (b) opens the container view of THOSE bytes, (c) starts as the *fresh* reader the verified
+# read()/needs_password() contracts require, and (d) never swallows an exception leaving the `with` body (the engine's `with`
+# protocol re-raises: true only if __exit__ returns a false value).  Each of these is now an obligation on the real body.
+def _fields(c, name="self", at_exit=True):
+    return (c.st if at_exit else c.entry).obj(c.args[name].ref).data
+
+
+def _is_none(v):
+    return v is NONE
+
+
+def _same_ext(v, w):
+    """v is the very same abstract object as w (no copy, no wrapper)."""
+    return isinstance(v, VExt) and isinstance(w, VExt) and v.sort == w.sort and v.t.eq(w.t)
+
+
+def _returns_self(c):
+    from pyvc.values import VRef
+    return isinstance(c.result, VRef) and c.result.ref == c.args["self"].ref
+
+
+def _falsy(v):
+    """The value `__exit__` hands back is false: the exception leaving the body propagates."""
+    if v is NONE:
+        return z3.BoolVal(True)
+    if isinstance(v, VBool):
+        return z3.Not(v.t)
+    if isinstance(v, VInt):
+        return ops.int_term(v) == 0
+    return z3.BoolVal(False)
+
+
+def handle_contracts(reg):
+    out = []
+    DOC_FRESH = {"_content": p_const(None), "_is_unicode": p_const(None), "_text_start": p_const(None)}
+
+    def doc_init_post(c):
+        d = _fields(c)
+        return z3.BoolVal(_same_ext(d.get("file_like"), c.args["file_like"]) and _is_none(d.get("ole"))
+                          and all(_is_none(d.get(k, False)) for k in DOC_FRESH))
+
+    out.append(FnContract(
+        target=f"{DOC}::_DocReader.__init__", params=[("self", p_obj("_DocReader", {})), ("file_like", p_ext("BytesIO"))],
+        modifies=("self",), raises=[], total=True,
+        ensures=[("fresh-reader-over-the-given-bytes", doc_init_post)],
+        note="construction: keeps the very bytes it was given, container not yet opened, nothing parsed (the `fresh reader` the "
+             "contracts of _parse_content / read start from); raises nothing"))
+
+    def doc_enter_post(c):
+        d, d0 = _fields(c), _fields(c, at_exit=False)
+        ole = d.get("ole")
+        ok = (_returns_self(c) and _same_ext(d.get("file_like"), d0["file_like"]) and isinstance(ole, VExt) and ole.sort == "OleFile"
+              and all(_is_none(d.get(k, False)) for k in DOC_FRESH))
+        return z3.And(z3.BoolVal(ok), ole.t == OLE_OF(d0["file_like"].t)) if ok else z3.BoolVal(False)
+
+    out.append(FnContract(
+        target=f"{DOC}::_DocReader.__enter__",
+        params=[("self", p_obj("_DocReader", dict({"file_like": p_ext("BytesIO"), "ole": p_const(None)}, **DOC_FRESH)))],
+        modifies=("self",), raises=[Raises("Exception", sub=True)],
+        ensures=[("returns-self-with-the-directory-view-of-its-own-bytes-and-still-unparsed", doc_enter_post)],
+        exc_ensures=[("opening-never-rejects-as-encrypted", lambda c: z3.Implies(z3.BoolVal(own(c)), z3.Not(is_enc_err(c))))],
+        note="`as doc` is the reader itself; doc.ole = OleFileIO(doc.file_like) (assumed olefile view of the SAME bytes); a failure to "
+             "open is a library failure, never the file-encrypted error"))
+
+    def doc_exit_post(c):
+        return _falsy(c.result)
+
+    out.append(FnContract(
+        target=f"{DOC}::_DocReader.__exit__",
+        params=[("self", p_obj("_DocReader", dict({"file_like": p_ext("BytesIO"), "ole": p_opt(p_ext("OleFile"))},
+                                                    _content=p_unk(), _is_unicode=p_unk(), _text_start=p_unk()))),
+                ("args", Maker(lambda ex, st, name: [(None, VTuple([NONE, NONE, NONE])),          # the body completed / raised
+                                                     (None, VTuple([VExt("ExcInfo"), VExt("ExcInfo"), VUnk("traceback")]))],
+                               desc="(exc_type, exc_val, exc_tb): all None or an exception in flight"))],
+        modifies=("self",), raises=[], total=True,
+        ensures=[("returns-a-false-value-so-the-error-of-the-body-propagates", doc_exit_post)],
+        note="__exit__ closes the container (close() assumed total) and returns a false value: the file-encrypted error raised by "
+             "read() inside `with _DocReader(f) as doc` is never swallowed (the engine's `with` protocol relies on this)"))
+
+    # SevenZipFile(f, "r"): __init__ stores the arguments, __exit__ drops the reader and never swallows
+    def szf_init_post(c):
+        d = _fields(c)
+        return z3.BoolVal(_same_ext(d.get("_file"), c.args["file"]) and _is_none(d.get("_reader", False)))
+
+    out.append(FnContract(
+        target=f"{SEVEN}::SevenZipFile.__init__",
+        params=[("self", p_obj("SevenZipFile", {})), ("file", p_ext("BytesIO")), ("mode", p_str()), ("password", p_opt(p_str()))],
+        modifies=("self",),
+        raises=[Raises("Bad7zFile", when=lambda c: c.args["mode"].t != sv("r"), label="only mode 'r'")],
+        ensures=[("mode-r-and-keeps-the-given-bytes-with-no-reader-yet",
+                  lambda c: z3.And(c.args["mode"].t == sv("r"), szf_init_post(c)))],
+        exc_ensures=[("construction-never-raises-the-encryption-signal",
+                      lambda c: z3.Not(c.ex.uni.subclass_term(c.exc.tidx, aes_signal(c.ex.module.repo)[0]))
+                      if aes_signal(c.ex.module.repo)[1] and c.ex.uni.known(aes_signal(c.ex.module.repo)[0]) else z3.BoolVal(True))],
+        note="SevenZipFile(f, 'r'): stores the very bytes it was given, reader not yet built (precondition of __enter__ / "
+             "needs_password contracts); Bad7zFile iff mode != 'r'"))
+
+    out.append(FnContract(
+        target=f"{SEVEN}::SevenZipFile.__exit__",
+        params=[("self", p_obj("SevenZipFile", {"_file": p_unk(), "_password": p_unk(), "_reader": p_unk()})),
+                ("exc_type", p_opt(p_ext("ExcInfo"))), ("exc_val", p_opt(p_ext("ExcInfo"))), ("exc_tb", p_unk())],    # None = the body completed
+        modifies=("self",), raises=[], total=True,
+        ensures=[("returns-a-false-value-so-the-error-of-the-body-propagates", lambda c: _falsy(c.result))],
+        note="__exit__ never swallows: the file-encrypted error raised after needs_password() inside `with SevenZipFile(...)` and the "
+             "decoder's encryption signal escaping __enter__ both reach the extractor's handlers"))
+    for c_ in out:
+        EXECUTOR_KW[c_.target] = {"inline_calls": False, "inline_local": False}
+
+    # exceptions.py (anchor file): constructing the file-encrypted error never fails -- `raise ExtractionFileEncryptedError(msg)` and
+    # `raise ExtractionFileEncryptedError(msg, cause=e)` at the rejection sites really raise THAT class (the engine's `raise C(...)`
+    # takes the construction for granted)
+    EXC = "sharepoint2text/parsing/exceptions.py"
+
+    def cause_kept(c):
+        d = _fields(c)
+        cz = c.args["cause"]
+        return z3.BoolVal(cz is NONE or d.get("__cause__") is cz)
+
+    out.append(FnContract(
+        target=f"{EXC}::{ENCERR}.__init__",
+        params=[("self", p_obj(ENCERR, {})), ("message", p_str()), ("cause", p_opt(p_ext("ExcInfo")))],
+        modifies=("self",), raises=[], total=True,
+        ensures=[("given-cause-is-kept-as-__cause__", cause_kept)],
+        note="construction of the file-encrypted error is total for a str message and an optional cause (kept as __cause__)"))
+    EXECUTOR_KW[f"{EXC}::{ENCERR}.__init__"] = {"inline_calls": False, "inline_local": False}
+
+    # ZipContext (base class of _EpubContext): the EPUB detector asks it `exists(name)` and `read_xml_root(name)`
+    ZC = X + "util/zip_context.py"
+
+    def zc_self(zipless=False):
+        def mk(ex, st, name):
+            zf = VExt("ZipFile")
+            d = {"file_like": VExt("BytesIO"), "_zip": zf, "_namelist": VExt("ZipNames", NAMES(zf.t))}
+            from pyvc.state import HeapObj
+            from pyvc.values import VRef
+            return [(None, VRef(st.alloc(HeapObj("obj", d, "ZipContext", fresh=False), ex.refs)))]
+        return Maker(mk, desc="ZipContext in its class invariant: _namelist = the names of _zip (established by __init__)")
+
+    def zc_init_post(c):
+        d = _fields(c)
+        f = c.args["file_like"]
+        z, nl = d.get("_zip"), d.get("_namelist")
+        ok = (_same_ext(d.get("file_like"), f) and isinstance(z, VExt) and z.sort == "ZipFile" and isinstance(nl, VExt) and nl.sort == "ZipNames")
+        if not ok:
+            return z3.BoolVal(False)
+        p_ = z3.String("p!zc")
+        return z3.And(z.t == ZIP_OF(f.t), z3.ForAll([p_], names_has(nl.t, p_) == HASM(ZIP_OF(f.t), p_)))
+
+    out.append(FnContract(
+        target=f"{ZC}::ZipContext.__init__", params=[("self", p_obj("ZipContext", {})), ("file_like", p_ext("BytesIO"))],
+        modifies=("self", "file_like"), raises=[Raises("Exception", sub=True)],
+        ensures=[("opens-the-given-bytes-and-lists-exactly-their-member-names", zc_init_post)],
+        exc_ensures=[("opening-never-rejects-as-encrypted", lambda c: z3.Implies(z3.BoolVal(own(c)), z3.Not(is_enc_err(c))))],
+        note="class invariant of ZipContext: _zip = open_zipfile(the given bytes) (assumed C11 contract: the zipfile view of the same "
+             "bytes), _namelist = exactly the member names of _zip"))
+
+    def zc_zip(c):
+        return _fields(c, at_exit=False)["_zip"].t
+
+    out.append(FnContract(
+        target=f"{ZC}::ZipContext.exists", params=[("self", zc_self()), ("path", p_str())], raises=[], total=True,
+        returns=lambda c: VBool(HASM(zc_zip(c), c.args["path"].t)),
+        note="exists(name) <=> the opened archive has a member of exactly that name (no normalisation, no prefix match); total"))
+
+    def root_post(zf_of_c):
+        def post(c):
+            r = c.result
+            blob = MBLOB(zf_of_c(c), c.args["path"].t)
+            if not (isinstance(r, VExt) and r.sort == "XmlElem"):
+                return z3.BoolVal(False)
+            return z3.And(HASM(zf_of_c(c), c.args["path"].t), XMLOK(blob), r.t == XROOT(blob))
+        return post
+    zc_root_post = root_post(zc_zip)
+    not_enc = ("never-rejects-as-encrypted", lambda c: z3.Implies(z3.BoolVal(own(c)), z3.Not(is_enc_err(c))))
+
+    out.append(FnContract(
+        target=f"{X}util/zip_utils.py::read_zip_xml_root", params=[("zf", p_ext("ZipFile")), ("path", p_str())],
+        raises=[Raises("Exception", sub=True)],
+        returns=lambda c: VExt("XmlElem", XROOT(MBLOB(c.args["zf"].t, c.args["path"].t))),
+        ensures=[("root-of-exactly-that-member-which-exists-and-is-well-formed", root_post(lambda c: c.args["zf"].t))],
+        exc_ensures=[not_enc],
+        note="ElementTree root of zf.read(path) (assumed zipfile / defusedxml views: KeyError iff no such member, ParseError iff not "
+             "well formed); failures are library failures"))
+
+    out.append(FnContract(
+        target=f"{ZC}::ZipContext.read_xml_root", params=[("self", zc_self()), ("path", p_str())],
+        raises=[Raises("Exception", sub=True)],
+        ensures=[("root-of-exactly-that-member-of-the-opened-archive", zc_root_post)],
+        exc_ensures=[("reading-never-rejects-as-encrypted", lambda c: z3.Implies(z3.BoolVal(own(c)), z3.Not(is_enc_err(c))))],
+        note="read_xml_root(name) = ElementTree root of the member `name` of the archive opened by __init__ (assumed zipfile / "
+             "ElementTree views); failures are library failures"))
+
+    out.append(FnContract(
+        target=f"{ZC}::ZipContext.close", params=[("self", zc_self())], modifies=("self",), raises=[], total=True,
+        ensures=[("returns-None", lambda c: z3.BoolVal(c.result is NONE))],
+        note="close() only closes the archive handle (ZipFile.close() assumed total): the `finally: ctx.close()` of read_epub cannot "
+             "replace the file-encrypted error by another exception"))
     return out
 
 
@@ -1587,6 +1865,7 @@ def m_7z_extractall(ex, st, obj, args, kwargs, node):
 
 def install_archive_models(reg):
     reg.ext_models[("new", "zipfile.ZipFile")] = new_zipfile
+    reg.method_models[("ZipFile", "namelist")] = lambda ex, st, o, a, k, n: [(st, VExt("ZipNames", NAMES(o.t)))]
     reg.method_models[("ZipFile", "infolist")] = m_infolist
     reg.method_models[("ZipInfo", "is_dir")] = lambda ex, st, o, a, k, n: [(st, VBool(ISDIR(o.t)))]
     reg.attr_models[("ZipInfo", "flag_bits")] = lambda ex, st, o: VInt(FLAG(o.t))
@@ -1680,14 +1959,48 @@ def signal_exc_ensures():
     return [("encryption-signal-of-the-decoder-is-passed-on-unchanged", preserved), ("encryption-signal-only-from-the-decoder", only_from_decoder)]
 
 
+def extractor_raises(tag):
+    """Raise clauses of a format extractor as seen by read_archive: (1) the file-encrypted error, (2) anything else.  Which of
+    the two produced the exception is recorded in the CALLER's ghost state (on the extractor's own body both are just `may raise`)."""
+    def w_enc(c):
+        if not _verifying(c):
+            c.st.ghost["extractor_raised"] = (tag, True)
+        return z3.BoolVal(True)
+
+    def w_other(c):
+        if not _verifying(c):
+            c.st.ghost["extractor_raised"] = (tag, False)
+        return z3.BoolVal(True)
+    return [Raises(ENCERR, sub=True, when=w_enc, label="the file-encrypted error"), Raises("Exception", sub=True, when=w_other)]
+
+
+def ran(tag, post):
+    """Normal-completion clause that also records (at call sites only) that this extractor ran to completion."""
+    def e(c):
+        if not _verifying(c):
+            c.st.ghost["extractor_completed"] = tag
+        return post(c)
+    return e
+
+
 def archive_contracts(reg):
     out = []
     AP = [("file_like", p_ext("BytesIO")), ("archive_path", p_opt(p_str()))]
 
     out.append(FnContract(
-        target=f"{ARCH}::_should_skip_file", assumed=True, params=[("filename", p_unk()), ("basename", p_unk())],
-        result_maker=lambda ex, st, ctx: VBool(z3.Bool(fresh_name("skip"))), raises=[],
-        note="verified by the C09 pack (functional contract, raises nothing); here only: total, returns a bool"))
+        target=f"{ARCH}::_is_supported_file_cached", assumed=True, params=[("filename", p_unk())],
+        result_maker=lambda ex, st, ctx: VBool(z3.Bool(fresh_name("supported"))), raises=[],
+        note="lru_cache wrapper of router.is_supported_file (verified by the C07 pack: total on str, returns a bool)"))
+    out.append(FnContract(
+        target=f"{ARCH}::_should_skip_file", params=[("filename", p_str()), ("basename", p_str())],
+        result_maker=lambda ex, st, ctx: VBool(z3.Bool(fresh_name("skip"))), raises=[], total=True,
+        ensures=[("returns-a-bool", lambda c: z3.BoolVal(isinstance(c.result, VBool))),
+                 ("hidden-entries-are-skipped", lambda c: z3.Implies(z3.Or(z3.PrefixOf(sv("."), c.args["basename"].t),
+                                                                          z3.PrefixOf(sv("__MACOSX/"), c.args["filename"].t)), c.result.t)
+                  if isinstance(c.result, VBool) and all(isinstance(c.args[k], VStr) for k in ("filename", "basename"))
+                  else z3.BoolVal(not _verifying(c)))],
+        note="round 7: verified here (was assumed from C09): total on str names and returns a bool -- the flag scan of the ZIP extractor "
+             "cannot be left through this call before every member's flag was looked at"))
     out.append(FnContract(
         target=f"{ARCH}::_process_archive_entry", assumed=True, generator=True,
         params=[("filename", p_unk()), ("file_data", p_unk()), ("archive_path", p_unk()), ("basename", p_unk())],
@@ -1716,8 +2029,8 @@ def archive_contracts(reg):
     t = f"{ARCH}::_extract_from_zip_optimized"
     cz = FnContract(
         target=t, params=AP, generator=True, modifies=("file_like",), requires=stash_input,
-        ensures=[("completes-only-if-no-member-is-flagged", lambda c: z3.Not(spec_zip_enc(zf_of(c))))],
-        raises=[Raises("Exception", sub=True)],
+        ensures=[("completes-only-if-no-member-is-flagged", ran("zip", lambda c: z3.Not(spec_zip_enc(zf_of(c)))))],
+        raises=extractor_raises("zip"),
         exc_ensures=[("flagged-member-implies-encrypted-error-before-any-read-or-result", zip_if),
                      ("encrypted-error-only-if-some-member-has-flag-bit-0", zip_only_if)],
         loops={},
@@ -1762,8 +2075,8 @@ def archive_contracts(reg):
     t = f"{ARCH}::_extract_from_7z_optimized"
     c7 = FnContract(
         target=t, params=AP, generator=True, modifies=("file_like",), requires=z7_req,
-        ensures=[("completes-only-if-no-aes-coder", lambda c: z3.Not(z3.Or(spec_7z_folders_enc(rv_of(c)), HDRAES(f_of(c)))))],
-        raises=[Raises("Exception", sub=True)],
+        ensures=[("completes-only-if-no-aes-coder", ran("7z", lambda c: z3.Not(z3.Or(spec_7z_folders_enc(rv_of(c)), HDRAES(f_of(c))))))],
+        raises=extractor_raises("7z"),
         exc_ensures=[("aes-folder-coder-implies-encrypted-error-before-extractall-or-result", z7_if_folders),
                      ("aes-coded-header-implies-encrypted-error", z7_if_header),
                      ("encrypted-error-only-if-an-aes-coder-exists", z7_only_if)],
@@ -1780,6 +2093,72 @@ def archive_contracts(reg):
     c7.on_extractall, c7.on_yield = z7_on_extractall, z7_on_yield
     EXECUTOR_KW[t] = {"abstract": True, "inline_calls": False, "inline_local": True}
     out.append(c7)
+
+    # ---------------- read_archive: the archive ENTRY POINT (round 7: had no contract at all)
+    never_enc = ("never-rejects-as-encrypted", lambda c: z3.Not(is_enc_err(c)) if (own(c) or not _verifying(c)) else z3.BoolVal(True))
+    ctar = FnContract(
+        target=f"{ARCH}::_extract_from_tar_optimized", generator=True, modifies=("file_like",),
+        params=[("file_like", p_ext("BytesIO")), ("archive_path", p_opt(p_str())), ("mode", p_str())],
+        ensures=[("tar-completed", ran("tar", lambda c: z3.BoolVal(True)))], raises=extractor_raises("tar"),
+        exc_ensures=[never_enc],
+        note="TAR has no encryption: the extractor has no rejection of its own (no `raise` of the file-encrypted error; member "
+             "failures never escape _process_archive_entry, C01) -- so read_archive cannot reject a TAR as encrypted")
+    EXECUTOR_KW[ctar.target] = {"abstract": True, "inline_calls": False, "inline_local": False}
+    out.append(ctar)
+    cdet = FnContract(
+        target=f"{ARCH}::_detect_archive_type_optimized", params=[("file_like", p_ext("BytesIO"))], modifies=("file_like",),
+        result_maker=lambda ex, st, ctx: [(None, NONE), (None, VStr(z3.String(fresh_name("archive_type"))))], raises=[Raises("Exception", sub=True)],
+        ensures=[("None-or-a-format-name", lambda c: z3.BoolVal(c.result is NONE or isinstance(c.result, VStr)))],
+        exc_ensures=[never_enc],
+        note="magic-number sniffing: None or a format name, or a library failure -- never the file-encrypted error (which format a "
+             "container is routed to is C09's business; every format extractor has its own two-sided contract here)")
+    EXECUTOR_KW[cdet.target] = {"inline_calls": False, "inline_local": False}
+    out.append(cdet)
+
+    def enc_container(c):
+        f = c.args["file_like"].t
+        return z3.Or(spec_zip_enc(ZIP_OF(f)), spec_7z_folders_enc(RV_OF(SZ_OF(f))), HDRAES(f))
+
+    def ra_only_if(c):
+        c.note = "read_archive raises the file-encrypted error itself, or passes one on from something that is not a format extractor"
+        a = c.exc.attrs if c.exc is not None else {}
+        src = str(a.get("from_callee", ""))
+        if "site" in a:        # EXC-ANY of a library call / an un-contracted helper: not a `raise` this contract can see (pack convention, cf. own())
+            return z3.BoolVal(True)
+        from_extractor = src.endswith(("::_extract_from_zip_optimized", "::_extract_from_7z_optimized"))
+        return z3.Implies(is_enc_err(c), z3.And(z3.BoolVal(from_extractor), enc_container(c)))
+
+    def ra_passed_on(c):
+        c.note = "the format extractor left with the file-encrypted error but read_archive reports something else"
+        tag, was_enc = c.st.ghost.get("extractor_raised", (None, False))
+        return z3.Implies(z3.BoolVal(bool(was_enc)), is_enc_err(c))
+
+    def ra_complete(c):
+        tag = c.st.ghost.get("extractor_completed")
+        if tag == "zip":
+            return z3.Not(spec_zip_enc(ZIP_OF(c.args["file_like"].t)))
+        if tag == "7z":
+            f = c.args["file_like"].t
+            return z3.Not(z3.Or(spec_7z_folders_enc(RV_OF(SZ_OF(f))), HDRAES(f)))
+        return z3.BoolVal(tag == "tar")
+
+    def ra_on_yield(ex, st, v, node):
+        # read_archive has no result of its own: everything it yields is delegated (`yield from`) to a format extractor
+        ex.add_vc("typestate", "no-result-of-its-own-before-a-format-extractor-ran", st.pc,
+                  z3.BoolVal(isinstance(node, ast.YieldFrom)), loc=ex.loc(node))
+    t = f"{ARCH}::read_archive"
+    cra = FnContract(
+        target=t, params=[("file_like", p_ext("BytesIO")), ("path", p_opt(p_str()))], generator=True, modifies=("file_like",),
+        requires=stash_input,
+        ensures=[("completes-only-after-a-format-extractor-completed-on-a-container-that-is-not-encrypted", ra_complete)],
+        raises=[Raises("Exception", sub=True)],
+        exc_ensures=[("file-encrypted-error-of-the-format-extractor-is-passed-on-unchanged", ra_passed_on),
+                     ("encrypted-error-only-from-the-zip-or-7z-extractor-on-an-encrypted-container", ra_only_if)],
+        note="archive entry point: dispatches to the ZIP / 7z / TAR extractor; `except ExtractionError: raise` lets the extractor's "
+             "file-encrypted error escape as such (not wrapped into ExtractionFailedError), and nothing else raises it")
+    cra.on_yield = ra_on_yield
+    EXECUTOR_KW[t] = {"inline_calls": False, "inline_local": True}        # exact execution: every callee has a contract; a local
+    out.append(cra)                                                         # dispatch helper (handed the bytes) is executed in place
 
     # ---------------- sevenzip.py: needs_password / _apply_decoder
     def folders_maker():
@@ -1882,7 +2261,7 @@ def archive_contracts(reg):
              ("SevenZipReader._parse_end_header", [("self", READER_SELF)]),
              ("SevenZipReader._parse_header", [("self", READER_SELF)]),
              ("SevenZipReader.__init__", [("self", p_obj("SevenZipReader", {})), ("file", p_unk())]),
-             ("SevenZipFile.__enter__", [("self", p_obj("SevenZipFile", {"_file": p_unk(), "_password": p_unk(), "_reader": p_unk()}))])]
+             ("SevenZipFile.__enter__", [("self", p_obj("SevenZipFile", {"_file": p_ext("BytesIO"), "_password": p_unk(), "_reader": p_const(None)}))])]
     chain_contracts = {}
     for q, params in chain:
         t = f"{SEVEN}::{q}"
@@ -1896,8 +2275,23 @@ def archive_contracts(reg):
     def new_reader(ex, st, args, kwargs, node):
         """SevenZipReader(file): runs __init__ -- by its contract"""
         obj = ex.new_obj(st, "SevenZipReader", {})
+        st.ghost[("reader_built_from", obj.ref)] = args[0] if args else None
         return [(s_, obj) for (s_, _v) in ex.apply_contract(st, chain_contracts["SevenZipReader.__init__"], [obj] + list(args), kwargs, node)]
     reg.ext_models[("new", "SevenZipReader")] = new_reader
+
+    # round 7: what `with SevenZipFile(f, "r") as szf` binds -- the handle itself, holding a reader that was built from ITS OWN
+    # bytes (the precondition of the verified needs_password contracts; the call-site model m_7z_needs_password speaks about
+    # the reader view of the bytes handed to SevenZipFile)
+    def szf_enter_post(c):
+        from pyvc.values import VRef
+        d, d0 = _fields(c), _fields(c, at_exit=False)
+        r = d.get("_reader")
+        ok = (_returns_self(c) and _same_ext(d.get("_file"), d0["_file"]) and isinstance(r, VRef) and c.st.obj(r.ref).cls == "SevenZipReader"
+              and _same_ext(c.st.ghost.get(("reader_built_from", r.ref)), d0["_file"]))
+        return z3.BoolVal(bool(ok)) if _verifying(c) else z3.BoolVal(True)
+    chain_contracts["SevenZipFile.__enter__"].ensures = [("returns-self-holding-a-reader-built-from-its-own-bytes", szf_enter_post)]
+    chain_contracts["SevenZipFile.__enter__"].result_maker = None
+    EXECUTOR_KW[f"{SEVEN}::SevenZipFile.__enter__"] = {"inline_calls": False, "inline_local": False}     # exact: its one callee has a contract
     return out
 
 
@@ -1990,8 +2384,14 @@ LOOP_RULES[("XmlElem", "EncryptedData")] = LoopSpec(inv=epub_loop_inv, label="en
 
 
 def new_epub_ctx(ex, st, args, kwargs, node):
+    """_EpubContext(f): may raise anything (open_zipfile, OPF parsing).  The context view CEX / ROOT is the zipfile view of the same
+    bytes -- by the VERIFIED contracts of ZipContext.__init__ / exists / read_xml_root (handle_contracts) and the inheritance
+    policy P7; stated here for the two members the detector asks about."""
     ex.exc_any(st.fork(), f"{ex.loc(node)} _EpubContext()")
     f = _fl(args[0]) if args else None
+    if f is not None:
+        ctx, zf = CTX_OF(f.t), ZIP_OF(f.t)
+        st.assume(z3.And([CEX(ctx, sv(n)) == HASM(zf, sv(n)) for n in (ENCXML, RIGHTS)] + [ROOT(ctx, sv(ENCXML)) == XROOT(MBLOB(zf, sv(ENCXML)))]))
     return [(st, VExt("EpubContext", CTX_OF(f.t)) if f is not None else VExt("EpubContext"))]
 
 
@@ -2448,6 +2848,7 @@ def contracts(reg):
     out = []
     out += detector_contracts(reg)
     out += doc_contracts(reg)
+    out += handle_contracts(reg)
     out += archive_contracts(reg)
     out += epub_contracts(reg)
     out += pdf_contracts(reg)
@@ -2577,6 +2978,41 @@ def policy(repo, tier):
     except Exception as e:  # noqa
         ok, why = False, f"shape not recognised: {type(e).__name__}"
     obls.append(ground_obligation(oid, ok, why, PDF, definite=False))
+    # P7 (round 7): frame of the ZipContext class invariant.  The contracts of ZipContext.exists / read_xml_root / close are
+    #     verified for an instance in the invariant that ZipContext.__init__ establishes (verified).  _EpubContext inherits them:
+    #     it must construct through super().__init__(file_like) first, must not override the three methods and nothing but
+    #     ZipContext.__init__ may rebind self._zip / self._namelist (AST rule; other shapes -> unknown, the native sweep decides).
+    oid = "C08/epub_extractor.py::_EpubContext/policy#inherits-the-verified-ZipContext-view-unchanged"
+    try:
+        ZC = X + "util/zip_context.py"
+        me, mz = loader.module(EPUB, repo), loader.module(ZC, repo)
+        cls = me.classes.get("_EpubContext")
+        bases = [ast.unparse(b).split(".")[-1] for b in cls.bases] if cls is not None else []
+        init = me.functions.get("_EpubContext.__init__")
+        first = init.body[0] if init is not None and init.body else None
+        if first is not None and isinstance(first, ast.Expr) and isinstance(first.value, ast.Constant):      # docstring
+            first = init.body[1] if len(init.body) > 1 else None
+        arg1 = init.args.args[1].arg if init is not None and len(init.args.args) > 1 else None
+        super_first = first is not None and ast.unparse(first).replace(" ", "") in (f"super().__init__({arg1})", f"ZipContext.__init__(self,{arg1})")
+        overridden = [q for q in me.functions if q in ("_EpubContext.exists", "_EpubContext.read_xml_root", "_EpubContext.close")]
+        rebinds = []
+        for mod_ in (me, mz):
+            for q, fn in mod_.functions.items():
+                if q == "ZipContext.__init__" and mod_ is mz:
+                    continue
+                for n in ast.walk(fn):
+                    tg = (n.targets if isinstance(n, ast.Assign) else [n.target] if isinstance(n, (ast.AnnAssign, ast.AugAssign)) else
+                          n.targets if isinstance(n, ast.Delete) else [])
+                    for t_ in tg:
+                        for leaf in ast.walk(t_):
+                            if isinstance(leaf, ast.Attribute) and leaf.attr in ("_zip", "_namelist"):
+                                rebinds.append(f"{q}:{n.lineno}")
+        ok = bases == ["ZipContext"] and super_first and not overridden and not rebinds
+        why = (f"bases={bases}; super().__init__({arg1}) first: {super_first}; overrides: {overridden or 'none'}; "
+               f"rebinding of _zip/_namelist outside ZipContext.__init__: {rebinds or 'none'}")
+    except Exception as e:  # noqa
+        ok, why = False, f"shape not recognised: {type(e).__name__}"
+    obls.append(ground_obligation(oid, ok, why, EPUB, definite=False))
     return {"obligations": obls, "functions": fns}
 
 
@@ -2672,6 +3108,61 @@ def bounded_chain_check():
     return ("C08/encryption.py::spec/bounded#FP-equals-explicit-chain-up-to-16-bytes", [n >= 0, n < 16] + bytes_ok, FP(ole, nm, z3.IntVal(0)) == explicit)
 
 
+# ---- round 7: the recursive spec FP equals the explicit record chain, for streams of EVERY length (induction lemmas) --------
+# Explicit chain (the property's "FILEPASS at any record position"):  POS(0) = 0, POS(k+1) = POS(k) + 4 + len16(POS(k));
+# CLEAN(k) := the records 0..k-1 exist (4-byte header inside the stream) and none of them is FILEPASS;
+# HIT(k)   := CLEAN(k) and record k exists and is FILEPASS.          Claim:  FP(0)  <=>  exists k >= 0. HIT(k).
+# The solver discharges base and step of each induction below at a symbolic k (definitions given as ground instances; the
+# induction principle itself is the proof rule, as for loop invariants):
+#   A  (invariant)  CLEAN(k) => FP(0) == FP(POS(k))                          base k = 0, step k -> k+1
+#   =>  (soundness)  HIT(k) => FP(0)                                          from A at k + one unfolding of FP
+#   P  (progress)    POS(k) >= 4k                                             base, step (needs len16 >= 0: bytes are 0..255)
+#   <=  (completeness) CLEAN(k) and record k does not exist => not FP(0)     from A at k + one unfolding; together with
+#       "CLEAN(k) and record k exists and is not FILEPASS => CLEAN(k+1)" (definition) and P (record k cannot exist for
+#       4k + 4 > |d|) a chain without a HIT ends in this case after at most |d|/4 + 1 records.
+def chain_lemmas():
+    ole, nm, k = z3.Const("ole!L", OleFile), z3.String("name!L"), z3.Int("k!L")
+    POS = z3.Function("chain_pos", I, I)
+    CLEAN = z3.Function("chain_clean_before", I, B)
+    n = SLEN(ole, nm)
+    fp0 = FP(ole, nm, z3.IntVal(0))
+
+    def rec_id(p):
+        return u16(ole, nm, p)
+
+    def rec_len(p):
+        return u16(ole, nm, p + 2)
+
+    def unfold(p):      # one-step unfolding of the recursive spec at position p (its definition, as a ground instance)
+        return FP(ole, nm, p) == z3.If(p + 4 > n, z3.BoolVal(False), z3.If(rec_id(p) == FILEPASS, z3.BoolVal(True), FP(ole, nm, p + 4 + rec_len(p))))
+
+    def exists_(j):
+        return POS(j) + 4 <= n
+
+    defs = [POS(0) == 0, POS(k + 1) == POS(k) + 4 + rec_len(POS(k)), CLEAN(0),
+            CLEAN(k + 1) == z3.And(CLEAN(k), exists_(k), rec_id(POS(k)) != FILEPASS)]
+    inv_k = z3.Implies(CLEAN(k), fp0 == FP(ole, nm, POS(k)))
+    byte_ok = [z3.And(SBYTE(ole, nm, POS(k) + d) >= 0, SBYTE(ole, nm, POS(k) + d) <= 255) for d in (2, 3)]
+    pre = "C08/encryption.py::spec/lemma#FP-equals-explicit-chain"
+    return [
+        (pre + "/A-base", defs, z3.Implies(CLEAN(0), fp0 == FP(ole, nm, POS(0)))),
+        (pre + "/A-step", defs + [k >= 0, inv_k, unfold(POS(k))], z3.Implies(CLEAN(k + 1), fp0 == FP(ole, nm, POS(k + 1)))),
+        (pre + "/soundness-hit-implies-FP", defs + [k >= 0, inv_k, unfold(POS(k)), CLEAN(k), exists_(k), rec_id(POS(k)) == FILEPASS], fp0),
+        (pre + "/completeness-chain-end-without-hit-implies-not-FP", defs + [k >= 0, inv_k, unfold(POS(k)), CLEAN(k), z3.Not(exists_(k))], z3.Not(fp0)),
+        (pre + "/completeness-no-hit-extends-clean", defs + [k >= 0, CLEAN(k), exists_(k), rec_id(POS(k)) != FILEPASS], CLEAN(k + 1)),
+        (pre + "/progress-base", defs, POS(0) >= 0),
+        (pre + "/progress-step", defs + [k >= 0, POS(k) >= 4 * k] + byte_ok, POS(k + 1) >= 4 * (k + 1)),
+        (pre + "/progress-bounds-the-chain", defs + [k >= 0, POS(k) >= 4 * k, n >= 0, 4 * k + 4 > n], z3.Not(exists_(k))),
+    ]
+
+
+def lemmas():
+    try:
+        return chain_lemmas()
+    except Exception:  # noqa  (never let an exception escape a pack callable)
+        return []
+
+
 def known_findings(kf, violations, repo, tier):
     """Recorded genuine defects (known_findings.json): replay each witness natively against `repo`; a finding that still
     fails prints KNOWN-FINDING and covers exactly its own obligation id."""
@@ -2700,7 +3191,8 @@ TRUSTED = ["olefile / zipfile / pypdf / ElementTree present the container faithf
            "the assumed XML fact: an element name occurs literally in the serialised manifest when its encoding is ASCII-compatible"]
 ASSUMED_MODELS = [
     "olefile.isOleFile(f) / OleFileIO(f): predicate and directory view of the same bytes; exists(name); openstream(name).read() = whole stream or failure (READABLE)",
-    "zipfile.is_zipfile / ZipFile(f) / infolist() / ZipInfo.is_dir() / flag_bits / filename; ZipFile.read(name): KeyError iff no such member",
+    "zipfile.is_zipfile / ZipFile(f) / infolist() / ZipInfo.is_dir() / flag_bits / filename; ZipFile.read(name): KeyError iff no such member; "
+    "ZipFile.namelist() (and a set / list built from it) lists a name exactly when the archive has that member",
     "bytes.decode('utf-8', errors='ignore') of the ODF manifest is its text when the manifest is in an ASCII-compatible encoding (ASCII_COMPAT); "
     "`needle in manifest` / .find / .index / .count on the raw member bytes = uninterpreted RAWHAS(member, needle): an element name occurs in the "
     "raw bytes only under ASCII_COMPAT (UTF-16 manifests are inside the model: a byte-level pre-filter does not see their element names)",
@@ -2708,19 +3200,29 @@ ASSUMED_MODELS = [
     "int.from_bytes(b, 'little') for 0..2 bytes",
     "SevenZipFile(f).__enter__ parses the archive; when the parse reaches an AES coder of the encoded header the decoder's encryption signal escapes "
     "(verified link by link: _apply_decoder, _decompress_folder, _parse_encoded_header, _parse_end_header, _parse_header, SevenZipReader.__init__, SevenZipFile.__enter__)",
-    "SevenZipFile.needs_password() on the opened archive = verified contract of SevenZipFile/SevenZipReader.needs_password",
-    "_EpubContext(f).exists / read_xml_root / close (total); Element.findall('.//{xmlenc}EncryptedData') = all such descendants",
+    "SevenZipFile.needs_password() on the opened archive = verified contract of SevenZipFile/SevenZipReader.needs_password; "
+    "SevenZipFile(f, 'r') / `with` exit: VERIFIED in round 7 (SevenZipFile.__init__ keeps the given bytes with no reader yet; __exit__ returns a false "
+    "value) -- still assumed: the `with` protocol itself (PY-GEN) and that the call-site model composes these contracts on one object",
+    "_EpubContext(f): exists / read_xml_root / close are the inherited ZipContext methods, VERIFIED in round 7 against the zipfile view "
+    "(ZipContext.__init__ / exists / read_xml_root / close, zip_utils.read_zip_xml_root) -- still assumed: _EpubContext.__init__ after "
+    "super().__init__ (container.xml / OPF parsing) may raise anything and leaves _zip / _namelist alone (AST policy P7, not a proof); "
+    "Element.findall('.//{xmlenc}EncryptedData') = all such descendants",
     "pypdf.PdfReader(f), .is_encrypted, .decrypt(''), .pages; reader.trailer and the /Encrypt dictionary as name-keyed dictionaries of numbers / names "
     "(d[k], d.get(k, default), k in d, get_object(), int(), str(), comparisons); `the document decrypts with AES` = /V >= 4 and the crypt filter NAMED "
     "by /StmF, /StrF or /EFF has /CFM /AESV2 or /AESV3 (pdf_uses_aes)",
-    "_DocReader(f) used as a context manager: read() behaves as the verified contract of _DocReader.read on a fresh reader",
+    "_DocReader(f) used as a context manager: VERIFIED in round 7 link by link (_DocReader.__init__ = fresh reader over the given bytes, "
+    "__enter__ = returns self with ole = OleFileIO(those bytes), read() = verified contract, __exit__ returns a false value) -- still "
+    "assumed: the `with` protocol itself (PY-GEN) and that the call-site model composes these contracts on one object",
     "close() of container / context handles is total",
     "attribute reads / comparisons on plain data objects raise at most AttributeError / TypeError",
     "ZipFile.read raises RuntimeError (other than its subclass NotImplementedError) only for an encrypted member",
-    "os.path.basename total on str; _should_skip_file total (C09); open_zipfile (C11); router contracts (C07)",
+    "os.path.basename total on str; open_zipfile (C11); router contracts (C07); _is_supported_file_cached = lru_cache wrapper of "
+    "router.is_supported_file (C07: total, bool) -- _should_skip_file itself is VERIFIED here since round 7",
+    "type(x) is total and pure, type(x).__name__ is some str",
 ]
-BOUNDED = ["C08/encryption.py::spec/bounded#FP-equals-explicit-chain-up-to-16-bytes: recursive chain predicate = explicit chain o_k for streams < 16 bytes (<= 3 records); "
-           "checked by `python3-vt -c 'from contracts.C08 import run_bounded; run_bounded()'` and, natively, by 400 random BIFF chains per run in replay/C08.py (validation, not proof)"]
+BOUNDED = []      # round 7: the bounded cross-check "FP = explicit chain for streams < 16 bytes" is REPLACED by the induction lemmas
+                  # `spec/lemma#FP-equals-explicit-chain/*` (chain_lemmas: every stream length); `run_bounded()` is kept as a developer tool.
+                  # (The native / validation obligations of EXTRA report themselves as bounded in the evidence file.)
 ASSUMPTIONS = [
     "EXC-ANY for library calls; PY-GEN; PY-LOG",
     "obligations speak about the container *views*; that pypdf / olefile compute them correctly is trusted",
@@ -2730,6 +3232,11 @@ ASSUMPTIONS = [
     "CLI entry point: covered by C01 (exit 1 + one stderr line for any ExtractionError); not re-proved here",
     "'same content as the unencrypted original' for empty-password PDFs is checked natively only (replay: RC4-40/128, AES-128/256 copies), see F28",
     "typestate second opinion and the AES-provider obligation are decided by AST dominance analysis (back end 'dataflow')",
+    "round 7: the recursive XLS spec FP equals the explicit record chain by induction (lemmas A-base/A-step, soundness, completeness, progress: "
+    "base and step discharged by the solver at a symbolic k; the induction principle is the proof rule)",
+    "round 7: archive entry point read_archive: which format a container is routed to (_detect_archive_type_optimized) is not specified here "
+    "(C09); proved: whatever extractor runs, its file-encrypted error is passed on unchanged and nothing else produces one; TAR has no encryption",
+    "round 7: _EpubContext inherits the verified ZipContext view (policy P7 is an AST rule, back end 'dataflow')",
 ]
 
 
